@@ -13,6 +13,8 @@ import re
 import traceback
 
 HERE = os.path.dirname(os.path.abspath(__file__))
+REPO = os.environ.get("VERIF_REPO", "/repo")      # MANIFEST commands use /repo; tools/run_seeded.py points this at a scratch worktree
+sys.path.insert(0, REPO)
 sys.path.insert(0, HERE)
 sys.path.insert(0, os.path.join(HERE, "..", "harness"))
 sys.setrecursionlimit(20000)
@@ -179,8 +181,8 @@ def main():
 
         def on_start(code, off):
             fnm = code.co_filename
-            if fnm.startswith("/repo/modelx/"):
-                encoded.add("%s:%s" % (fnm[len("/repo/"):], code.co_qualname))
+            if fnm.startswith(REPO + "/modelx/"):
+                encoded.add("%s:%s" % (fnm[len(REPO) + 1:], code.co_qualname))
             return mon.DISABLE
         mon.register_callback(TOOL, mon.events.PY_START, on_start)
     except Exception:
